@@ -100,14 +100,11 @@ def run_harnesses(copy_dir, harnesses, jobs=16, extra_flags=()):
             r["status"] = "timeout"
         return r
 
-    # first one alone (compiles the crate), then the rest in parallel
-    results = []
+    # all in parallel; cargo's target-directory lock serialises the (short) crate compile
     if not harnesses:
-        return results
-    results.append(one(harnesses[0]))
-    with ThreadPoolExecutor(max_workers=max(1, jobs)) as ex:
-        results += list(ex.map(one, harnesses[1:]))
-    return results
+        return []
+    with ThreadPoolExecutor(max_workers=max(1, min(jobs, 14))) as ex:
+        return list(ex.map(one, harnesses))
 
 
 def parse_output(out):
